@@ -29,19 +29,24 @@ func Normalize(ctx context.Context, m *sysl.Module) (*Schema, error) {
 func normalizeModule(ctx context.Context, s *Schema, m *sysl.Module) error {
 	normalizeImports(s, m)
 
-	// Normalize apps in a deterministic (alphabetical) order.
-	keys := make([]string, 0, len(m.Apps))
-	for k := range m.Apps {
-		keys = append(keys, k)
-	}
-	sort.Strings(keys)
-
-	for _, name := range keys {
+	// Normalize apps, and everything inside them that is held in a map, in a deterministic (alphabetical) order.
+	for _, name := range sortedKeys(m.Apps) {
 		if err := normalizeApp(ctx, s, m.Apps[name]); err != nil {
 			return err
 		}
 	}
 	return nil
+}
+
+// sortedKeys returns the keys of m in ascending order. The rows of the schema are kept in slices, so walking the
+// module's maps in this order makes the relational model the same on every run.
+func sortedKeys[V any](m map[string]V) []string {
+	keys := make([]string, 0, len(m))
+	for k := range m {
+		keys = append(keys, k)
+	}
+	sort.Strings(keys)
+	return keys
 }
 
 func normalizeImports(s *Schema, m *sysl.Module) {
@@ -79,18 +84,18 @@ func normalizeApp(ctx context.Context, s *Schema, app *sysl.Application) error {
 		normalizeMixin(s, app, mixin)
 	}
 
-	for _, ep := range app.Endpoints {
-		if err := normalizeEndpoint(ctx, s, app, ep); err != nil {
+	for _, epName := range sortedKeys(app.Endpoints) {
+		if err := normalizeEndpoint(ctx, s, app, app.Endpoints[epName]); err != nil {
 			return err
 		}
 	}
 
-	for typeName, typ := range app.Types {
-		normalizeType(s, app, typ, typeName)
+	for _, typeName := range sortedKeys(app.Types) {
+		normalizeType(s, app, app.Types[typeName], typeName)
 	}
 
-	for viewName, view := range app.Views {
-		normalizeView(s, app, view, viewName)
+	for _, viewName := range sortedKeys(app.Views) {
+		normalizeView(s, app, app.Views[viewName], viewName)
 	}
 
 	return nil
@@ -364,7 +369,8 @@ func normalizeType(s *Schema, app *sysl.Application, typ *sysl.Type, typeName st
 		s.Enum = append(s.Enum, e)
 	}
 
-	for fieldName, field := range fields {
+	for _, fieldName := range sortedKeys(fields) {
+		field := fields[fieldName]
 		normalizeField(s, app, typeName, field, fieldName)
 	}
 
@@ -418,7 +424,8 @@ func normalizeAppMeta(s *Schema, app *sysl.Application) {
 	}
 
 	annos := annos(app.Attrs)
-	for annoName, annoValue := range annos {
+	for _, annoName := range sortedKeys(annos) {
+		annoValue := annos[annoName]
 		s.Anno.App = append(s.Anno.App, AppAnnotation{
 			AppName:      app.Name.Part,
 			AppAnnoName:  annoName,
@@ -456,7 +463,8 @@ func normalizeMixinMeta(s *Schema, app *sysl.Application, mixin *sysl.Applicatio
 	}
 
 	annos := annos(mixin.Attrs)
-	for annoName, annoValue := range annos {
+	for _, annoName := range sortedKeys(annos) {
+		annoValue := annos[annoName]
 		s.Anno.Mixin = append(s.Anno.Mixin, MixinAnnotation{
 			AppName:        app.Name.Part,
 			MixinName:      mixin.Name.Part,
@@ -497,7 +505,8 @@ func normalizeEndpointMeta(s *Schema, app *sysl.Application, ep *sysl.Endpoint) 
 	}
 
 	annos := annos(ep.Attrs)
-	for annoName, annoValue := range annos {
+	for _, annoName := range sortedKeys(annos) {
+		annoValue := annos[annoName]
 		s.Anno.Ep = append(s.Anno.Ep, EndpointAnnotation{
 			AppName:     app.Name.Part,
 			EpName:      ep.Name,
@@ -538,7 +547,8 @@ func normalizeEventMeta(s *Schema, app *sysl.Application, event *sysl.Endpoint) 
 	}
 
 	annos := annos(event.Attrs)
-	for annoName, annoValue := range annos {
+	for _, annoName := range sortedKeys(annos) {
+		annoValue := annos[annoName]
 		s.Anno.Event = append(s.Anno.Event, EventAnnotation{
 			AppName:        app.Name.Part,
 			EventName:      event.Name,
@@ -586,7 +596,8 @@ func normalizeStatementMeta(
 	}
 
 	annos := annos(stmt.Attrs)
-	for annoName, annoValue := range annos {
+	for _, annoName := range sortedKeys(annos) {
+		annoValue := annos[annoName]
 		s.Anno.Stmt = append(s.Anno.Stmt, StatementAnnotation{
 			AppName:       app.Name.Part,
 			EpName:        ep.Name,
@@ -642,7 +653,8 @@ func normalizeParamMeta(
 	}
 
 	annos := annos(param.Attrs)
-	for annoName, annoValue := range annos {
+	for _, annoName := range sortedKeys(annos) {
+		annoValue := annos[annoName]
 		s.Anno.Param = append(s.Anno.Param, ParamAnnotation{
 			AppName:        app.Name.Part,
 			EpName:         ep.Name,
@@ -692,7 +704,8 @@ func normalizeTypeMeta(s *Schema, app *sysl.Application, typ *sysl.Type, typeNam
 	}
 
 	annos := annos(typ.Attrs)
-	for annoName, annoValue := range annos {
+	for _, annoName := range sortedKeys(annos) {
+		annoValue := annos[annoName]
 		s.Anno.Type = append(s.Anno.Type, TypeAnnotation{
 			AppName:       app.Name.Part,
 			TypeName:      typeName,
@@ -734,7 +747,8 @@ func normalizeFieldMeta(s *Schema, app *sysl.Application, typeName string, field
 	}
 
 	annos := annos(field.Attrs)
-	for annoName, annoValue := range annos {
+	for _, annoName := range sortedKeys(annos) {
+		annoValue := annos[annoName]
 		s.Anno.Field = append(s.Anno.Field, FieldAnnotation{
 			AppName:        app.Name.Part,
 			TypeName:       typeName,
@@ -778,7 +792,8 @@ func normalizeViewMeta(s *Schema, app *sysl.Application, view *sysl.View, viewNa
 	}
 
 	annos := annos(view.Attrs)
-	for annoName, annoValue := range annos {
+	for _, annoName := range sortedKeys(annos) {
+		annoValue := annos[annoName]
 		s.Anno.View = append(s.Anno.View, ViewAnnotation{
 			AppName:       app.Name.Part,
 			ViewName:      viewName,
